@@ -690,7 +690,8 @@ class Symex:
         if opname in ("is", "is not") and ((isinstance(a, Obj) and b is None and a.attrs.get("$id")) or
                                            (isinstance(b, Obj) and a is None and b.attrs.get("$id"))):
             return opname == "is not"           # a record declared an individual ("$id") is never None
-        if isinstance(a, Obj) and not (opname in ("is", "is not", "==", "!=") and isinstance(b, Obj)):
+        if isinstance(a, Obj) and not (opname in ("is", "is not", "==", "!=") and isinstance(b, Obj)) \
+                and not (opname in ("in", "not in") and a.attrs.get("$id")):
             a = a.term
         if isinstance(b, Obj) and not isinstance(a, Obj):
             b = b.term
